@@ -51,6 +51,26 @@ def synth_dataset(rng):
     return DS()
 
 
+def check_buffer_reuse(mon, rng, ds, prob):
+    """the same query ARRAY OBJECT refilled in place between two calls: the answer must follow the contents"""
+    n, d = ds.in_data.shape
+    k = int(rng.integers(1, 5))
+    i1, i2 = rng.integers(n, size=k), rng.integers(n, size=k)
+    buf = ds.in_data[i1].copy()
+    f1 = np.asarray(prob.evaluate(buf, noisy=False))
+    buf[...] = ds.in_data[i2]
+    f2 = np.asarray(prob.evaluate(buf, noisy=False))
+    mon.count("buffer_reuse_events")
+    mon.event(case_hash("buf", i1, i2), True, "lookup/buffer-reuse")
+    D2 = ((ds.in_data[i2][:, None, :] - ds.in_data[None, :, :]) ** 2).sum(-1)
+    for r in range(k):
+        ok_rows = np.nonzero(D2[r] <= D2[r].min() * (1 + 1e-9) + 1e-18)[0]
+        if not any(np.array_equal(f2[r], ds.out_data[j]) for j in ok_rows):
+            mon.violation("evaluate:stale-answer-for-refilled-array", f"query buffer refilled in place: row {r} returned {f2[r]}, nearest design {ok_rows[0]} has {ds.out_data[ok_rows[0]]}",
+                          {"first": ds.in_data[i1], "second": ds.in_data[i2]})
+            return
+
+
 def check_closest(mon, rng, ds):
     """get_closest_indices_from_points with distances (used by the design spaces to locate points)."""
     from vopy.utils import get_closest_indices_from_points
@@ -413,6 +433,7 @@ def shard(mon, tier, rng, shard_no, nshards):
         dec = DecoupledEvaluationProblem(inner)
         check_lookup(mon, rng, ds, prob, dec)
         check_closest(mon, rng, ds)
+        check_buffer_reuse(mon, rng, ds, prob)
         check_normalize(mon, rng)
         check_branin(mon, rng)
         if len(mon.samples) < 2:
